@@ -5,6 +5,7 @@ import (
 	"math/big"
 
 	ethcmn "github.com/ethereum/go-ethereum/common"
+	ethcrypto "github.com/ethereum/go-ethereum/crypto"
 
 	agov "github.com/Oneledger/protocol/action/governance"
 	"github.com/Oneledger/protocol/data/balance"
@@ -71,6 +72,7 @@ type Farm struct {
 	A, B *sim.User
 	E    *sim.EthUser
 
+	Contract   map[string]ethcmn.Address        // store, revert, loop: contracts deployed by E in the prefix
 	P          map[string]governance.ProposalID // fund, cancel, vote, withdraw, finalize
 	LockRaw    []byte                           // ongoing ETH lock tracker (report-finality subject)
 	Log        []string                         // prefix execution log: "h=.. KIND code log"
@@ -133,6 +135,20 @@ func BuildFarm(w *World, o FarmOpts) *Farm {
 
 	run() // block 1: fork switch (EVM on, staking options forced)
 	f.LockRaw = txgen.EthLockRaw(f.E, f.ethNonce(), &sim.LockRedeemContract, big.NewInt(1000000))
+	// three contracts deployed by E (nonces 0..2): runtime SSTORE(0, calldata) / REVERT / endless loop
+	f.Contract = map[string]ethcmn.Address{}
+	var deploys []txgen.Tx
+	for i, c := range []struct {
+		name string
+		rt   []byte
+	}{{"store", rtStore}, {"revert", rtRevert}, {"loop", rtLoop}} {
+		d := txgen.OLVM(f.E, txgen.OLVMArgs{ChainID: p.ChainID, Nonce: uint64(i), Data: initCode(c.rt),
+			Fee: txgen.Fee{Price: big.NewInt(1000000000), Cur: "OLT", Gas: 300000}})
+		d.Note = fmt.Sprintf("olvm:%s:%d", f.E.Name, i)
+		deploys = append(deploys, d)
+		f.Contract[c.name] = ethcrypto.CreateAddress(f.E.Addr, uint64(i))
+	}
+	run(deploys...)
 	run(
 		txgen.Delegate(A, A.Addr, txgen.Amt("OLT", olt(100)), fee, memo()),
 		// one domain per domain kind, so that really executing one subject leaves the others applicable
@@ -282,6 +298,25 @@ func (f *Farm) Make(kind string) (txgen.Tx, error) {
 		return f.MakeOLVM(0, 12345+k), nil
 	}
 	return txgen.Tx{}, fmt.Errorf("unknown kind %s", kind)
+}
+
+// MakeOLVMCall builds an OLVM message call to one of the prefix's contracts ("store" succeeds,
+// "revert" reverts, "loop" runs out of gas: the latter two fail inside the EVM, are charged
+// and committed as executed). The nonce is the account's next nonce plus gap.
+func (f *Farm) MakeOLVMCall(which string, gap uint64, arg byte) txgen.Tx {
+	w := f.W
+	nonce := w.OlvmNext[f.E.Name] + gap
+	to := f.Contract[which]
+	data := make([]byte, 32)
+	data[31] = arg
+	gas := int64(100000)
+	if which == "loop" {
+		gas = 60000
+	}
+	tx := txgen.OLVM(f.E, txgen.OLVMArgs{ChainID: w.P.ChainID, Nonce: nonce, To: &to, Value: big.NewInt(0), Data: data,
+		Fee: txgen.Fee{Price: big.NewInt(1000000000), Cur: "OLT", Gas: gas}})
+	tx.Note = fmt.Sprintf("olvm:%s:%d", f.E.Name, nonce)
+	return tx
 }
 
 // MakeOLVM builds an OLVM transfer from the farm's ethereum key to B whose nonce is the
